@@ -43,6 +43,8 @@ pub struct EnvState {
     pub now_max_step: u8,
     pub sleeps: u32,
     pub sleep_max: u32,
+    /// when set, exceeding sleep_max is an assertion failure ("the call does not return") instead of a cut path
+    pub sleep_strict: bool,
     /// sum of the whole seconds *requested* by the code under analysis (saturating)
     pub slept_req_secs: u64,
     /// sum of the milliseconds requested (saturating)
@@ -54,6 +56,7 @@ pub static mut ENV: EnvState = EnvState {
     now_max_step: 2,
     sleeps: 0,
     sleep_max: 2,
+    sleep_strict: false,
     slept_req_secs: 0,
     slept_req_ms: 0,
 };
@@ -105,6 +108,9 @@ pub fn any_str_from(alphabet: &[u8], n: usize) -> String {
 pub async fn sleep(d: Duration) {
     let e = env();
     e.sleeps += 1;
+    if e.sleep_strict {
+        assert!(e.sleeps <= e.sleep_max, "the call keeps sleeping: it does not return within the bound");
+    }
     kani::assume(e.sleeps <= e.sleep_max);
     e.slept_req_secs = e.slept_req_secs.saturating_add(d.as_secs());
     e.slept_req_ms = e.slept_req_ms.saturating_add(d.as_millis() as u64);
